@@ -10,7 +10,7 @@ N_ENCODERS_FLOOR = 30     # request encoders, vendor_defined, response encoders,
 
 
 def in_scope(enc):
-    return enc.kind in ('request', 'response', 'vendor', 'writer')
+    return enc.kind in ('request', 'response', 'vendor', 'writer', 'generic')
 
 
 def analysed(chk, rule='encoder', kinds=None, report=True):
@@ -26,6 +26,13 @@ def analysed(chk, rule='encoder', kinds=None, report=True):
             continue
         if enc.kind == 'stub':
             continue
+        if enc.kind == 'generic':
+            noted = chk.extra.setdefault('encoders_without_reference_layout', [])
+            if enc.key not in noted:
+                noted.append(enc.key)
+                print('note: public encoder %s has no reference layout in spec/commands.py: the per-encoder rules (PEC, framing, exact writes, no panic) are applied, the per-command body rules are not' % enc.key)
+            if kinds is not None:
+                continue
         for lf in enc.bad_leaves():
             if lf.kind == 'unanalysable' and report and (kinds is None or enc.kind in kinds):
                 fn, sp = local_site(an.prog, lf)
@@ -386,9 +393,9 @@ def c05(chk):
         else:
             mt = E.message_type_term(enc)
         items = E.header_items(enc, length, msg_type=mt)
-        if enc.kind == 'response':
+        if enc.kind in ('response', 'generic'):
             # only SOM/EOM/seq are required of responses: compare the top four bits
-            cell_rule(chk, 'C05', enc, lf, know, ordered, items, [4, 5, 6, 8], 'transport header')
+            cell_rule(chk, 'C05', enc, lf, know, ordered, items, [4, 5, 6, 8] if enc.kind == 'response' else [4, 5, 6], 'transport header')
             a = ordered[7] if len(ordered) > 7 else None
             ok = a is not None and a[0] == 'cell' and tuple(bits_of(simp(know, a[2]))[4:8]) == (0, 0, 1, 1)
             chk.ob('C05', '%s item 7' % leaf_id(enc, lf), ok,
@@ -658,7 +665,7 @@ def c16(chk):
                    chk.key(enc.entry, 'C16.d', enc.key, 'refusal-writes:%d' % len(wrote)),
                    '%s returns Err after writing %d bytes into the buffer' % (enc.key, len(wrote)), site=site_of(enc),
                    detail={'leaf': dump_leaf(lf, prog)})
-            why = refusal_reason(enc, lf)
+            why = refusal_reason(enc, lf) if enc.kind != 'generic' else 'no reference'
             chk.ob('C16.d', '%s documented' % leaf_id(enc, lf), why is not None,
                    chk.key(enc.entry, 'C16.d', enc.key, 'undocumented-refusal:' + ';'.join(guard_text(lf)[-2:])),
                    '%s refuses arguments the API does not document as invalid: %s' % (enc.key, '; '.join(guard_text(lf))),
